@@ -121,10 +121,11 @@ class Check(PropertyCheck):
             tr.take(j)
             n_acc += 1
             lines += [f"disp {j} {p} {m}", "fsnap", "fspec"]
-            if rng.random() < 0.04 and not long_times:
+            if rng.random() < 0.07 and not long_times:
                 # an observer (or a residual graph updater) is attached in the middle of the episode: those that share helper
                 # observers with the ones already there must leave them as they are
                 lines += [rng.choice(["fobs is_completed -", "fobs is_completed mj", "fobs remaining_operations -",
+                                      "fobs position_in_job -", "fobs is_scheduled -", "fobs is_ready -", "fobs position_in_job -",
                                       f"fres {rng.choice(['agent_task', 'complete_agent_task', 'disjunctive'])} 1 1",
                                       "fobs unscheduled -"]), "fsnap", "fspec"]
             if rng.random() < 0.04:
